@@ -82,6 +82,31 @@ struct Diff {
     void filename(const Str &s) { cmp("filename", s, [&] { return a.filename(s); }, [&] { return w.filename(s); }); }
 };
 
+
+// One component of 2^29 characters (2 GiB of wchar_t): a byte count kept in an int is wrong in the wide API only.  Text in address space
+// obtained with mmap; both APIs parse it, take ownership, and must report the same codes and the same (complete) copy.
+#include <sys/mman.h>
+template <class C> static Str giant_owner_obs(size_t n) {
+    typedef Api<C> A; size_t bytes = (n + 1) * sizeof(C); C *t = (C *)mmap(0, bytes, PROT_READ | PROT_WRITE, MAP_PRIVATE | MAP_ANONYMOUS | MAP_NORESERVE, -1, 0); if (t == (C *)MAP_FAILED) return "no memory for the test text";
+    for (size_t i = 0; i < n; i++) t[i] = (C)'x'; t[8] = (C)'/'; t[n] = 0;
+    typename A::Uri u; const C *err = 0; int rc = A::ParseSingleUriEx(&u, t, t + n, &err); Str r = fmt("parse=%d", rc);
+    if (rc == URI_SUCCESS) {
+        int ro = A::MakeOwner(&u); r += fmt(" makeOwner=%d owner=%d", ro, (int)u.owner);
+        if (ro == URI_SUCCESS) { size_t k = 0; for (auto *sg = u.pathHead; sg; sg = sg->next, k++) { size_t len = (size_t)(sg->text.afterLast - sg->text.first); bool outside = sg->text.first < t || sg->text.first >= t + n;
+            r += fmt(" seg%zu[len=%zu copy=%d first=%c last=%c]", k, len, (int)outside, len ? (char)sg->text.first[0] : '-', len ? (char)sg->text.afterLast[-1] : '-'); } }
+        A::FreeUriMembers(&u);
+    }
+    munmap(t, bytes); return r;
+}
+
+// One query key of n characters (no value): required size of the composed text in both APIs.  The INT_MAX guards count characters; a guard that
+// counts bytes refuses in the wide API what the char API accepts.
+template <class C> static Str giant_key_obs(size_t n, int plus, int nb) {
+    typedef Api<C> A; size_t bytes = (n + 1) * sizeof(C); C *t = (C *)mmap(0, bytes, PROT_READ | PROT_WRITE, MAP_PRIVATE | MAP_ANONYMOUS | MAP_NORESERVE, -1, 0); if (t == (C *)MAP_FAILED) return "no memory for the test text";
+    for (size_t i = 0; i < n; i++) t[i] = (C)'k'; t[n] = 0;
+    typename A::QList item; item.key = t; item.value = 0; item.next = 0; int req = -7; int rc = A::ComposeQueryCharsRequiredEx(&item, &req, plus, nb);
+    munmap(t, bytes); return fmt("rc=%d", rc) + (rc == URI_SUCCESS ? fmt(" req=%d", req) : Str());
+}
 void run(Ctx &ctx) {
     Local lc; Diff d(ctx, lc); bool q = ctx.quick(); int sz = ctx.secondary ? 0 : q ? 1 : 2;
     brute_force_classes(ctx, ctx.secondary ? 3 : q ? 5 : 6, [&](const char *s, int n, int) { d.parse(Str(s, n)); });
@@ -108,13 +133,22 @@ void run(Ctx &ctx) {
     all_strings(ctx, Str("a +%\r\n\xff~", 8), ctx.secondary ? 3 : q ? 4 : 5, [&](const Str &s) { for (int p = 0; p < 2; p++) for (int n = 0; n < 2; n++) d.escape(s, p, n); });
     all_strings(ctx, Str("%0aAdg+\r\n", 9), ctx.secondary ? 3 : q ? 5 : 6, [&](const Str &s) { for (int p = 0; p < 2; p++) for (int m = 0; m < 4; m++) d.unescape(s, p, m); });
     all_strings(ctx, "&=a+%41", ctx.secondary ? 3 : q ? 5 : 6, [&](const Str &s) { d.dissect(s, 1, URI_BR_DONT_TOUCH); d.dissect(s, 0, URI_BR_TO_CRLF); });
+    // stretch family for the query functions: items of a repeated unit, lengths around the powers of two (a buffer sized in bytes where characters are meant)
+    { uint64_t si = 0; for (const char *u : { "a", "%26", "&a=", "+", "%0A" }) for (int n : stretch_lengths(ctx.secondary ? 0 : 1)) { if (n > 1100 || !ctx.mine(si++) || ctx.expired()) continue; Str x; for (int i = 0; i < n; i++) x += u;
+          d.dissect(x, 1, URI_BR_DONT_TOUCH); d.dissect("k=" + x, 0, URI_BR_TO_CRLF); } }
     all_strings(ctx, Str("aC:/\\ %#\xff", 9), ctx.secondary ? 3 : q ? 4 : 5, [&](const Str &s) { d.filename(s); d.filename("file:" + s); d.filename("file://" + s); });
+    if (!ctx.secondary && ctx.worker == 1 % ctx.nworkers) {       // one after the other on one worker: at most 1.8 GB at a time
+        static const struct { size_t n; int nb; } GK[] = { { (size_t)INT_MAX / 24 + 1, 1 }, { (size_t)INT_MAX / 12 + 1, 0 }, { (size_t)INT_MAX / 6 - 1, 1 }, { (size_t)INT_MAX / 6, 1 } };
+        for (auto &g : GK) { size_t n = g.n; int nb = g.nb; d.cmp("giantkey", fmt("%zu`%d", n, nb), [&] { return giant_key_obs<char>(n, 0, nb); }, [&] { return giant_key_obs<wchar_t>(n, 0, nb); }); } }
+    if (ctx.worker == 0 && !ctx.secondary) d.cmp("giantowner", "29", [&] { return giant_owner_obs<char>(((size_t)1 << 29) + 16); }, [&] { return giant_owner_obs<wchar_t>(((size_t)1 << 29) + 16); });
     ctx.st.count("evaluations", lc.cases); for (auto &kv : lc.fam) ctx.st.count("family_" + kv.first, kv.second);
     if (ctx.worker == 0) { ctx.st.sample("parse '//[1:2::3' : rc, error offset, every component offset, host bytes - char vs wchar_t"); ctx.st.sample("tostring 's://u@h:1/a?q#f' with every capacity 0..len+2"); ctx.st.sample("query 'a=%41&&=+' : dissect, charsRequired, compose at 5 capacities, composeMalloc"); }
 }
 void replay(Ctx &ctx, const Str &enc) {
     std::vector<Str> p = split(enc, '`'); Local lc; Diff d(ctx, lc); if (p.size() < 2) return; const Str &f = p[0];
     auto I = [&](size_t i) { return i < p.size() ? atoi(p[i].c_str()) : 0; };
+    if (f == "giantkey" && p.size() >= 3) { size_t n = strtoull(p[1].c_str(), 0, 10); int nb = I(2); d.cmp("giantkey", fmt("%zu`%d", n, nb), [&] { return giant_key_obs<char>(n, 0, nb); }, [&] { return giant_key_obs<wchar_t>(n, 0, nb); }); return; }
+    if (f == "giantowner") { d.cmp("giantowner", "29", [&] { return giant_owner_obs<char>(((size_t)1 << 29) + 16); }, [&] { return giant_owner_obs<wchar_t>(((size_t)1 << 29) + 16); }); return; }
     if (f == "parse") d.parse(p[1]); else if (f == "tostring") d.tostring(p[1]); else if (f == "resolve" && p.size() >= 4) d.two(p[1], p[2], 0, I(3)); else if (f == "shorten" && p.size() >= 4) d.two(p[1], p[2], 1, I(3)); else if (f == "equals" && p.size() >= 4) d.two(p[1], p[2], 2, I(3));
     else if (f == "normalize") d.normalize(p[1], (unsigned)I(2), I(3)); else if (f == "escape") d.escape(p[1], I(2), I(3)); else if (f == "unescape") d.unescape(p[1], I(2), I(3)); else if (f == "query") d.dissect(p[1], I(2), I(3)); else if (f == "filename") d.filename(p[1]);
 }
